@@ -61,6 +61,13 @@ func runC10(c *Ctx) {
 		inScope[fn] = true
 	}
 	eng.InScope = func(fn *ssa.Function) bool { return isShipped(c, fn) }
+	k := newC10k(c, eng)
+	eng.NonNegOf = k.nonNegOf
+	eng.BoundedOf = k.boundedOf
+	eng.UpperOf = k.upperOf
+	invs := k.invariants()
+	listCovers, listCheck := k.listEntryInvariant()
+	used := map[string]int{}
 	kinds := map[string][2]int{}
 	ord := newOrdinal()
 	for _, fn := range scope {
@@ -70,21 +77,47 @@ func runC10(c *Ctx) {
 		sites := eng.Sites(fn)
 		sort.SliceStable(sites, func(i, j int) bool { return sites[i].Instr.Pos() < sites[j].Instr.Pos() })
 		for _, s := range sites {
-			k := kinds[s.Kind]
-			k[0]++
+			kd := kinds[s.Kind]
+			kd[0]++
 			key := ord.next(load.FuncKey(fn) + "#" + s.Kind)
+			if !s.OK && s.X != nil && !s.NeedNonNeg && s.NeedLT {
+				for _, inv := range invs {
+					if inv.covers(eng.Of(fn), s) {
+						s.OK, s.How = true, "index >= 0 proven; index < len by invariant "+inv.id
+						used[inv.id]++
+						break
+					}
+				}
+			}
+			if ta, ok := s.Instr.(*ssa.TypeAssert); ok && !s.OK && listCovers(ta) {
+				s.OK, s.How = true, "by invariant list-holds-entries"
+				used["list-holds-entries"]++
+			}
 			if s.OK {
-				k[1]++
+				kd[1]++
 				r.OK("O-6", key, c.P.Pos(s.Instr.Pos()), s.Desc+": "+s.How)
 			} else {
 				r.Bad("O-6", key, c.P.Pos(s.Instr.Pos()), s.Desc+": "+s.Why)
 			}
-			kinds[s.Kind] = k
+			kinds[s.Kind] = kd
 		}
 	}
-	for k, v := range kinds {
-		r.Analysed["sites_"+k] = v[0]
-		fmt.Printf("census %s: %d sites, %d proven\n", k, v[0], v[1])
+	// the invariants relied on are themselves checked at their construction sites
+	for _, inv := range invs {
+		if used[inv.id] == 0 {
+			continue
+		}
+		ok, detail := inv.check()
+		r.Check(ok, "O-6", "invariant:"+inv.id, "", fmt.Sprintf("%s (justifies %d accesses; construction sites re-checked)", inv.text, used[inv.id]), "the data-structure invariant that "+fmt.Sprint(used[inv.id])+" accesses rely on no longer follows from the construction sites: "+detail+" ["+inv.text+"]")
+	}
+	if used["list-holds-entries"] > 0 {
+		ok, detail := listCheck()
+		r.Check(ok, "O-6", "invariant:list-holds-entries", "", "every element of the cache's list is a *cache.Entry", detail)
+	}
+	r.Analysed["invariant_uses"] = used
+	for kk, v := range kinds {
+		r.Analysed["sites_"+kk] = v[0]
+		r.Analysed["sites_"+kk+"_proven"] = v[1]
 	}
 	r.Analysed["functions_in_scope"] = len(scope)
 }
